@@ -860,8 +860,8 @@ def _run_for_steps(case):
 
 def gen_cases(seed, tier):
     rng = random.Random(f'C05-{seed}-{tier}')
-    n1, n2, nsys, lim = {'quick': (2200, 500, 3, 60), 'thorough': (30000, 6000, 30, 400),
-                          'search': (8000, 3000, 10, 200)}[tier]
+    n1, n2, nsys, lim = {'quick': (1400, 350, 3, 50), 'thorough': (24000, 5000, 30, 400),
+                          'search': (6000, 2500, 10, 200)}[tier]
     cases = [rand_case(rng, 1) for _ in range(n1)]
     cases += [rand_case(rng, rng.choice([2, 2, 3])) for _ in range(n2)]
     for _ in range(nsys):
